@@ -422,7 +422,9 @@ SIGNATURES: dict = {"unknown_profile_in_extenders": _sig_unknown_profile_in_exte
 def rule_files(draw, force_unit: bool = False) -> dict:
     profiles = draw(st.lists(st.sampled_from(PROFILE_POOL), min_size=3, max_size=6, unique=True))
     categories = draw(st.lists(st.sampled_from(CATEGORIES), min_size=1, max_size=3, unique=True))
-    names = draw(st.lists(st.sampled_from(RULE_NAMES), min_size=1, max_size=5, unique=True))
+    hierarchy = draw(st.integers(0, 4)) == 0       # many rules that nearly always name superiors (diamonds, chains)
+    names = draw(st.lists(st.sampled_from(RULE_NAMES), min_size=5 if hierarchy else 1, max_size=8 if hierarchy else 5,
+                          unique=True))
     alias_pool = list(ALIAS_NAMES)
     chunks: list = []          # token lists, one per DEFINE / RULE block
     for index, name in enumerate(names):
@@ -451,8 +453,9 @@ def rule_files(draw, force_unit: bool = False) -> dict:
         if draw(st.integers(0, 3)) == 0:
             related = draw(st.lists(st.sampled_from(profiles), min_size=1, max_size=3, unique=True))
             tokens += ["RELATED"] + list(itertools.chain.from_iterable((r, ",") for r in related))[:-1]
-        if index and draw(st.integers(0, 1)):
-            superiors = draw(st.lists(st.sampled_from(names[:index]), min_size=1, max_size=3, unique=True))
+        if index and (draw(st.integers(0, 1)) or (hierarchy and index > 1)):
+            pool = names[max(0, index - 3):index] if hierarchy else names[:index]
+            superiors = draw(st.lists(st.sampled_from(pool), min_size=1, max_size=3, unique=True))
             tokens += ["SUPERIORS"] + list(itertools.chain.from_iterable((s, ",") for s in superiors))[:-1]
         tokens += ["CUTOFF", str(draw(st.sampled_from([0, 1, 5, 20, 45, 7]))),
                    "NEIGHBOURHOOD", str(draw(st.sampled_from([0, 1, 10, 20, 33])))]
